@@ -7,7 +7,7 @@ def check_hx(pid, tier, seed):
     legs = props.plan(pid, tier)
     counts = props.counts_for(pid)
     agg = {"states": 0, "transitions": 0, "executions": 0, "generated": 0, "counters": {}, "samples": [], "legs": [], "violations": [], "collateral": {}, "known_hits": {}, "capped": False, "max_depth": 0, "outcomes": {}}
-    for leg in legs:
+    def _leg(leg):
         san = leg["kw"].get("san")
         if san == "asan":
             # AddressSanitizer build (nightly): an oracle for out-of-bounds / use-after-free on the enumerated executions
@@ -37,7 +37,7 @@ def check_hx(pid, tier, seed):
             agg["legs"].append({"scenario": sc["name"] + " under Miri", "config": "miri[%s]" % ",".join(leg["features"]), "histories_replayed_under_miri": len(jobs), "all_histories_up_to_depth": leg["kw"].get("miri_depth", 2), "fixed_deeper_histories": len(jobs) - sum(1 for j in jobs if j[0].get("depth") != 12),
                                 "unique_states": 0, "transitions": 0, "capped": False, "wall_s": round(wall, 1), "reported": bad})
             log("%s Miri leg: %d histories, %d reported, %.0fs" % (pid, len(jobs), bad, wall))
-            continue
+            return
         if leg["fam"] == "CYCLE":
             # hook-free: 2^32-2 real create/destroy cycles on one position and on two alternating positions
             outp = os.path.join(WORK, "out", "cycle.%d.json" % os.getpid())
@@ -68,7 +68,7 @@ def check_hx(pid, tier, seed):
                     key = "%s:%s" % (v["prop"], v["oracle"])
                     agg["collateral"][key] = agg["collateral"].get(key, 0) + 1
             log("%s cycle leg: %d cycles, %.0fs" % (pid, n, o["wall_s"]))
-            continue
+            return
         if leg["fam"] == "LIMIT":
             # S-H: the 2^24 limit, scripted fill + all operation suffixes up to a depth
             depth = leg["kw"].get("depth", 2)
@@ -99,7 +99,7 @@ def check_hx(pid, tier, seed):
                     key = "%s:%s" % (v["prop"], v["oracle"])
                     agg["collateral"][key] = agg["collateral"].get(key, 0) + 1
             log("%s limit leg: %d suffixes, %.1fs" % (pid, st["suffixes"], o["wall_s"]))
-            continue
+            return
         fam = hxrun.FAMILIES[leg["fam"]]
         kw = dict(leg["kw"])
         kw.pop("san", None)
@@ -163,6 +163,20 @@ def check_hx(pid, tier, seed):
                     key = "%s:%s" % (v["prop"], v["oracle"])
                     agg["collateral"][key] = agg["collateral"].get(key, 0) + 1
             log("%s %s %s: %d states, %d transitions, %.1fs%s" % (pid, config, sc["name"], st["unique_states"], st["transitions"], r["wall_s"], " CAPPED" if st["capped"] else ""))
+
+    # A leg that fails for machinery reasons must not take the verdicts of the other legs with it: failures are collected
+    # and only become the result of the check when no leg found a violation.
+    deferred = []
+    for leg in legs:
+        try:
+            _leg(leg)
+        except MachineryError as e:
+            deferred.append("%s leg: %s" % (leg["fam"], e))
+            log("leg %s failed for machinery reasons: %s" % (leg["fam"], str(e)[:300]))
+    if deferred:
+        if not agg["violations"]:
+            raise MachineryError(deferred[0])
+        agg["leg_failures"] = deferred
     return agg
 
 
